@@ -52,6 +52,8 @@ def classify_operand(v, os_):
                 cls.add("difference")
             elif o.a.endswith("Uint256::one"):
                 cls.add("one")
+            elif o.a.endswith("Decimal256::to_uint_floor"):
+                cls.add("product")      # floor(ratio) is what `Uint256::one() * ratio` computes (cannot abort)
             else:
                 cls.add("call:" + o.a.split("::")[-1])
         elif o.kind == "const":
@@ -175,7 +177,11 @@ def run(ctx):
             a.append(set())
         reason = None
         for rx, lc, rc, why in DISCHARGE:
-            if re.search(rx, name) and a[0] and a[0] <= lc and a[1] and a[1] <= rc:
+            if not re.search(rx, name) or not a[0] or not a[1]:
+                continue
+            # `x + y` / `x * y` between values of one type commute: the reason holds for either operand order
+            commutes = bool(re.search(r"as std::ops::(Mul|Add)>::(mul|add)$", name))
+            if (a[0] <= lc and a[1] <= rc) or (commutes and a[0] <= rc and a[1] <= lc):
                 reason = why
                 break
         short = name.split(" as ")[-1] if " as " in name else name
@@ -184,7 +190,7 @@ def run(ctx):
         ctx.ob("C02-T1", "%s|%s#%d" % (CS, k, ordinals[k]), reason is not None,
                ("discharged: " + reason) if reason else
                "operation %s with operands (%s ; %s) can abort and matches no discharge pattern" % (name, sorted(a[0]), sorted(a[1])), v.where(b))
-    ctx.floor("C02-T1", "abort-capable operations in the constant-product arm", n, 12)
+    ctx.floor("C02-T1", "abort-capable operations in the constant-product arm", n, 8)
     # T2 fee split
     fees = {}
     gross_ids = set()
